@@ -126,7 +126,10 @@ def dispatch_table(ctx, cname, server):
                 ctx.check(bool(aw), construct, '[%s] the handler coroutine '
                           'is awaited' % t, key='await ' + t, where=w)
         elif t in ('BINARY_EVENT', 'BINARY_ACK'):
-            st = [e for e in p.events if e.kind == 'store']
+            # stores to other attributes (counters, statistics) are not the
+            # parking slot and do not change what is parked
+            st = [e for e in p.events if e.kind == 'store' and
+                  '_binary_packet' in U(e.expr)]
             tgt = 'self._binary_packet[%s]' % eio if server else \
                 'self._binary_packet'
             good = not hc and len(st) == 1 and U(st[0].expr) == tgt and \
